@@ -106,6 +106,7 @@ type Result struct {
 	TraceHash       uint64         `json:"trace_hash"`
 	FakeNs          int64          `json:"fake_ns"`
 	State           string         `json:"state,omitempty"` // label of every live task at the end
+	Origins         string         `json:"origins,omitempty"` // where every live task was spawned ("id:label")
 	PanicVal        string         `json:"panic,omitempty"`
 	PanicStack      string         `json:"panic_stack,omitempty"`
 	PanicTask       int32          `json:"panic_task,omitempty"`
@@ -410,6 +411,22 @@ func (s *Sched) stateVector() string {
 	return strings.Join(parts, " ")
 }
 
+// originVector lists, for every live task, the label of the go statement that created it.
+func (s *Sched) originVector() string {
+	var parts []string
+	for _, t := range s.tasks {
+		if t.state == stExited {
+			continue
+		}
+		o := "root"
+		if t.spawnLabel >= 0 {
+			o = s.name(t.spawnLabel)
+		}
+		parts = append(parts, fmt.Sprintf("%d:%s", t.id, o))
+	}
+	return strings.Join(parts, " ")
+}
+
 func (s *Sched) stateHash() uint64 {
 	h := uint64(14695981039346656037)
 	for _, t := range s.tasks {
@@ -436,6 +453,7 @@ func (s *Sched) result(outcome string) Result {
 	}
 	if outcome != "ok" {
 		r.State = s.stateVector()
+		r.Origins = s.originVector()
 	}
 	if s.panicVal != nil {
 		r.PanicVal = fmt.Sprint(s.panicVal)
